@@ -237,4 +237,12 @@ func main() {
 	if err := os.WriteFile(filepath.Join(outDir, "Facts.lean"), []byte(o.sb.String()), 0o644); err != nil {
 		fail("%v", err)
 	}
+	// lock/access table of the shared fields (C14)
+	lf, err := lockFactsLean(root)
+	if err != nil {
+		fail("%v", err)
+	}
+	if err := os.WriteFile(filepath.Join(outDir, "LockFacts.lean"), []byte(lf), 0o644); err != nil {
+		fail("%v", err)
+	}
 }
